@@ -53,8 +53,13 @@ def stream_a(ctx, res, n):
     replies = ctx.model([{"cmd": "merge", "base": enc_tree(b), "child": enc_tree(c)} for b, c in cases])
     for i, (b, c) in enumerate(cases):
         b0, c0 = copy.deepcopy(b), copy.deepcopy(c)
-        got = fld.combine_trees(b, c)
         case = {"stream": "combine_trees", "base": b0, "child": c0}
+        try:
+            got = fld.combine_trees(b, c)
+        except Exception as e:  # noqa
+            res.case(None, kind="A:raised")
+            res.violate("C18:merge-raised", "combine_trees raised %s on two plain trees" % type(e).__name__, case)
+            continue
         res.case(json.dumps([b0, c0], sort_keys=True, default=str) if nontrivial_pair(b0, c0) else None,
                  sample=case, kind="A:" + ("overlap" if set(b0) & set(c0) else "disjoint"))
         exp = spec_merge(b0, c0)
